@@ -6,6 +6,7 @@
                             the spread operator, escape table of `lex_string!`, raw tag names,
                             bool keywords, `Debug` names of the payload-free tokens
   tera/src/parsing/parser.rs `eoi()`: which fields of the span it overwrites
+  tera/src/tera.rs `set_delimiters`: order of validation and assignment
 into lean/TeraModel/Generated/LexTables.lean.  Raises when a shape is not recognised.
 """
 import os
@@ -122,6 +123,21 @@ def generate(repo):
     if n_assign != int(eoi_line) + int(eoi_col) + int(eoi_range):
         raise ValueError("parser.rs eoi(): unrecognised assignment to the span")
 
+    # ---- tera.rs set_delimiters: is the new set validated BEFORE it is stored?
+    tr = read(repo, "tera/src/tera.rs")
+    m_sd = re.search(r"pub fn set_delimiters\(&mut self, delimiters: Delimiters\) -> TeraResult<\(\)> \{(.*?)\n    \}", tr, re.S)
+    if not m_sd:
+        raise ValueError("tera.rs set_delimiters not recognised")
+    sd_body = m_sd.group(1)
+    m_assign = re.search(r"self\.delimiters\s*=\s*delimiters\s*;", sd_body)
+    m_val_new = re.search(r"\bdelimiters\.validate\(\)\s*\?\s*;", sd_body)
+    if not m_assign or len(re.findall(r"self\.delimiters\s*=", sd_body)) != 1 or len(re.findall(r"validate\(\)", sd_body)) != 1:
+        raise ValueError("tera.rs set_delimiters: unrecognised shape (one assignment, one validate call expected)")
+    set_delims_validates_first = bool(m_val_new) and m_val_new.start() < m_assign.start() and \
+        not re.search(r"self\.delimiters\.validate\(\)", sd_body)
+    set_delims_refuses_after_add = bool(re.search(r"if !self\.templates\.is_empty\(\)\s*\{\s*return Err", sd_body)) and \
+        sd_body.index("self.templates.is_empty()") < m_assign.start()
+
     camel = lambda s: s[0].lower() + "".join(p.capitalize() for p in s.split("_"))[1:]  # noqa: E731
     out = ["import TeraModel.Model.Delims", "import TeraModel.Model.Token", "namespace Tera.Generated", ""]
     out.append("/-- `impl Default for Delimiters` (delimiters.rs) -/")
@@ -146,6 +162,11 @@ def generate(repo):
     out.append(f"def eoiMovesLine : Bool := {str(eoi_line).lower()}")
     out.append(f"def eoiMovesCol : Bool := {str(eoi_col).lower()}")
     out.append(f"def eoiCollapsesRange : Bool := {str(eoi_range).lower()}")
+    out.append("")
+    out.append("/-- tera.rs `set_delimiters`: `delimiters.validate()?` comes before `self.delimiters = delimiters` -/")
+    out.append(f"def setDelimsValidatesFirst : Bool := {str(set_delims_validates_first).lower()}")
+    out.append("/-- tera.rs `set_delimiters`: returns Err before anything else once templates exist -/")
+    out.append(f"def setDelimsRefusesAfterAdd : Bool := {str(set_delims_refuses_after_add).lower()}")
     out.append("")
     out.append("/-- `Debug` names of the payload-free tokens -/")
     out.append("def opDebugName : Op → String\n" + "\n".join(f"  | .{o} => \"{dbg[o]}\"" for o in OPS))
